@@ -247,6 +247,13 @@ class EditRun:
                 flags.add('docstring_capable_body')
             if isinstance(tgt, (ast.Global, ast.Nonlocal)):
                 flags.add('global_nonlocal')
+            if isinstance(tgt, ast.If) and len(tgt.orelse) == 1 and isinstance(tgt.orelse[0], ast.If):
+                flags.add('target_if_with_lone_if_orelse')
+            src_lines = self.root.src.split('\n')
+            for i, ln in enumerate(src_lines):
+                if ln.rstrip().endswith('\\') and '#' not in ln and (i + 1 >= len(src_lines) or not src_lines[i + 1].strip()):
+                    flags.add('pre_source_has_dangling_line_continuation')
+                    break
             code = op.get('code') or {}
             if code.get('form') not in (None, 'none') and code.get('text') is not None:
                 a = harness_ast(code.get('cat', 'expr'), code['text'])
